@@ -407,7 +407,7 @@ func genC06(seed uint64, tier string, idx int) *Plan {
 			if g.r.chance(8) {
 				// a sub-packaged message, complete, of an ID that is answered
 				id := []uint16{0x0200, 0x0704, 0x0801, 0x0800, 0x1005}[g.r.intn(5)]
-				fr, tr := g.transferFrames(ci, id, 2+g.r.intn(4), 0, g.r.chance(50))
+				fr, tr := g.transferFrames(ci, id, 1+g.r.intn(5), 0, g.r.chance(50)) // a "transfer" of one packet is legal
 				if id == 0x0801 {
 					// keep the multimedia id field inside packet 1 well-formed: 36+ bytes in the first packet
 					fr, tr = g.transferFrames(ci, 0x0200, 2+g.r.intn(4), 0, g.r.chance(50))
